@@ -154,8 +154,12 @@ class SourceTable:
                             kinds.add(self._rhs_kind(n.value) if isinstance(n, ast.Assign) else 'num')
         if not kinds:
             return None
+        if kinds == {'num'}:
+            return 'ext'          # only ever assigned numbers: never None once assigned
         if 'num' in kinds:
             return 'ext?'
+        if kinds == {'bool'}:
+            return 'bool'
         if kinds <= {'bool', 'none'} and 'bool' in kinds:
             return 'bool?'
         if kinds <= {'list', 'none'} and 'list' in kinds:
